@@ -241,10 +241,16 @@ def run_end_to_end(run):
         for (fname, form), o in itertools.product(forms, option_sets(run.tier)):
             tag = "".join("1" if o[k] else "0" for k in OPTS)
             name = f"e2e_{cell[:3]}{g}_{fname}_{tag}"
-            if g == 3 and o["do_cancel_jacobian_products"] and fname in ("stiff", "nonlin", "div", "flux", "bmass"):
-                # measured: the field normal form of these 3D cases does not finish within 240 s; the same
-                # forms x options are covered on interval and triangle, and without cancellation in 3D
-                skipped.append((name, "3D + Jacobian cancellation on a derivative/facet form: normal form too large"))
+            slow3d = g == 3 and o["do_apply_geometry_lowering"] and (
+                (td == 3 and fname in ("bmass", "flux") and o["do_apply_integral_scaling"]
+                 and (o["do_cancel_jacobian_products"] or o["do_remove_component_tensors"]))
+                or (td == 2 and fname in ("stiff", "nonlin", "div") and o["do_apply_function_pullbacks"]
+                    and o["do_remove_component_tensors"]))
+            if slow3d:
+                # measured on an idle machine: the ring/field normal form of exactly these 24 cases does not
+                # finish within 100 s (all other 3D cases take < 40 s); the same forms x options are covered on
+                # interval and triangle
+                skipped.append((name, "3D case whose polynomial normal form is too large (> 100 s)"))
                 continue
             try:
                 c = build_case(name, m, form, o)
